@@ -567,13 +567,18 @@ fn wall_limit() -> Duration {
 
 /// Run all requests in isolated workers; a worker that stalls or dies is replaced. A `hang wall` verdict of
 /// the parallel pass is not final: on a loaded machine a budget-limited evaluation (a few seconds in a debug
-/// build) can exceed the wall limit, so every such request is run once more, alone, with six times the limit.
+/// build) can exceed the wall limit, so every such request is run once more in a second, lightly loaded pass with three times the limit.
 fn run_isolated(requests: Vec<String>, jobs: usize) -> Vec<String> {
     let mut out = run_isolated_pass(requests.clone(), jobs, wall_limit());
     let again: Vec<usize> = (0..out.len()).filter(|i| out[*i] == "hang wall").collect();
-    for i in again {
-        let r = run_isolated_pass(vec![requests[i].clone()], 1, wall_limit() * 6);
-        out[i] = r[0].clone();
+    if !again.is_empty() {
+        // second pass: only the stalled requests, at most 4 at a time, three times the limit (genuine native
+        // loops cost one extended limit in total, not one each)
+        let reqs: Vec<String> = again.iter().map(|i| requests[*i].clone()).collect();
+        let r = run_isolated_pass(reqs, jobs.min(4), wall_limit() * 3);
+        for (k, i) in again.iter().enumerate() {
+            out[*i] = r[k].clone();
+        }
     }
     out
 }
@@ -1239,7 +1244,26 @@ fn text_requests(n: usize, seed: u64) -> Vec<String> {
     let light: Vec<&str> = SEED_PROGRAMS.iter().copied().filter(|s| !heavy(s)).collect();
     let known_runs: Vec<String> = light.iter().flat_map(|s| digit_runs(s)).collect();
     let mut out: Vec<String> = SEED_PROGRAMS.iter().map(|s| format!("text {}", enc_text(s))).collect();
-    while out.len() < n + SEED_PROGRAMS.len() {
+    // ill-formed binders: every kind of datum in every position where the language wants a variable name
+    // (formals of lambda / define / nested and internal define, let-family bindings, set!, define-syntax keyword),
+    // at top level and nested inside procedure bodies (the analyses that run over a body see the nested ones first)
+    const BINDER_DATA: [&str; 14] = ["1.5", ".5", "-0.0", "1e3", "#i1/3", "7", "3/4", "100000000000000000000",
+        "\"s\"", "#\\a", "#(1 2)", "(1 2)", "()", "#t"];
+    const BINDER_SHAPES: [&str; 16] = [
+        "(lambda (D) 1)", "(lambda (x . D) 1)", "(lambda D 1)", "(define (f D) 1)", "(define (f . D) 1)", "(define D 1)",
+        "(set! D 1)", "(let ((D 1)) 2)", "(let* ((D 1)) 2)", "(letrec ((D 1)) 2)", "(let loop ((D 1)) 2)",
+        "(define (g) (define (h D) 1) 2)", "(lambda () (define (f D) 0) 1)", "(lambda (x) (define D 2) x)",
+        "(let ((x 1)) (define (f a D) a) (f 1 2))", "(define-syntax D (syntax-rules () ((_) 1)))",
+    ];
+    for sh in BINDER_SHAPES.iter() {
+        for d in BINDER_DATA.iter() {
+            let t = sh.replace("D", d);
+            out.push(format!("text {}", enc_text(&t)));
+            out.push(format!("text {}", enc_text(&format!("(eval '{})", t))));
+        }
+    }
+    let fixed = out.len();
+    while out.len() < n + fixed {
         let t = if rng.chance(2, 5) {
             soup(&mut rng)
         } else {
